@@ -6,6 +6,7 @@ from contracts.api import spec, implies, iff, kids, first, rest, is_empty
 import itertools
 import contracts.spec_ctc as _ctc
 from contracts.spec_ctc import holds
+from flamapy.core.models.ast import ASTOperation
 
 
 def names_of_rule(e):
@@ -139,3 +140,98 @@ def den_all(es: 'ElemList') -> bool:
     if is_empty(es):
         return True
     return den(first(es)) and den_all(rest(es))
+
+
+# ---------------------------------------------------------------- the same sub-format as nested dicts (writer stage 1)
+# {'type': tag, 'operands': [...]}; a var has one string operand (its name).  In proofs a JSON object of this view is a
+# document node (contract attribute doc_view) and a string item a node with tag '#str'.
+def is_text(x):
+    return isinstance(x, str)
+
+
+@spec
+def wf_rule_j(d: 'Element') -> bool:
+    if is_text(d):
+        return False
+    ops = d['operands']
+    if d['type'] == 'var':
+        return (not is_empty(ops)) and is_empty(rest(ops)) and is_text(first(ops))
+    if d['type'] == 'not':
+        return (not is_empty(ops)) and is_empty(rest(ops)) and wf_rule_j(first(ops))
+    if d['type'] == 'imp' or d['type'] == 'eq':
+        return ((not is_empty(ops)) and (not is_empty(rest(ops))) and is_empty(rest(rest(ops)))
+                and wf_rule_j(first(ops)) and wf_rule_j(first(rest(ops))))
+    if d['type'] == 'disj' or d['type'] == 'conj':
+        return (not is_empty(ops)) and wf_rules_j(ops)
+    return False
+
+
+@spec
+def wf_rules_j(es: 'ElemList') -> bool:
+    if is_empty(es):
+        return True
+    return wf_rule_j(first(es)) and wf_rules_j(rest(es))
+
+
+@spec
+def den_j(d: 'Element') -> bool:
+    ops = d['operands']
+    if d['type'] == 'var':
+        return holds(first(ops))
+    if d['type'] == 'not':
+        return not den_j(first(ops))
+    if d['type'] == 'imp':
+        return (not den_j(first(ops))) or den_j(first(rest(ops)))
+    if d['type'] == 'eq':
+        return den_j(first(ops)) == den_j(first(rest(ops)))
+    if d['type'] == 'disj':
+        return den_j_any(ops)
+    if d['type'] == 'conj':
+        return den_j_all(ops)
+    return False
+
+
+@spec
+def den_j_any(es: 'ElemList') -> bool:
+    if is_empty(es):
+        return False
+    return den_j(first(es)) or den_j_any(rest(es))
+
+
+@spec
+def den_j_all(es: 'ElemList') -> bool:
+    if is_empty(es):
+        return True
+    return den_j(first(es)) and den_j_all(rest(es))
+
+
+@spec
+def no_xor(n: 'Node') -> bool:
+    """FeatureIDE has no exclusive-or rule element"""
+    if n is None or n.is_term():
+        return True
+    return n.data != ASTOperation.XOR and no_xor(n.left) and no_xor(n.right)
+
+
+def names_of_rule_j(d):
+    if d['type'] == 'var':
+        return {d['operands'][0]}
+    out = set()
+    for k in d['operands']:
+        out |= names_of_rule_j(k)
+    return out
+
+
+def same_truth_j(node, d):
+    """a constraint tree and a nested-dict rule have the same truth value under every assignment (natively: complete truth
+    table; in proofs: sem(node) == den_j(d) with the assignment an uninterpreted function)"""
+    names = sorted(set(_ctc.names_of(node)) | names_of_rule_j(d), key=str)
+    saved = _ctc.ENV
+    try:
+        for bits in itertools.product([False, True], repeat=len(names)):
+            _ctc.ENV = {n for n, v in zip(names, bits) if v}
+            if _ctc.sem(node) != den_j(d):
+                return False
+        return True
+    finally:
+        _ctc.ENV = saved
